@@ -47,6 +47,15 @@ def pieceOf (k : KV) (t : Table) (pts : List Vec) (W : Option (List Rat)) (dim z
       | none => [1]
       | some _ => toU (localComb polys k.deg sz (wOf W)) }
 
+/-- run-time validated side condition of the piece theorems (`Proofs/Pieces.lean`): the table of span `z`
+belongs to the knot span `[U[sz], U[sz+1])` the code's look-ups say it does -/
+def pieceCheck (k : KV) (t : Table) (z : Nat) : Bool :=
+  let sz := t.spans.getD z 0
+  (nth t.knots z == nth k.v sz) && (nth t.knots (z + 1) == nth k.v (sz + 1))
+  && decide (nth k.v sz < nth k.v (sz + 1))
+  && (t.polys.getD z [] == tableSpan k.v (nth k.v sz) (nth k.v (sz + 1)) sz k.deg)
+  && decide (k.deg ≤ sz)
+
 /-- pieces of a curve, one per non-empty span -/
 def RF.ofCurve (c : Curve) : Except Err RF := do
   let pts ← match c.P with
@@ -54,7 +63,9 @@ def RF.ofCurve (c : Curve) : Except Err RF := do
     | none => throw .value
   let t ← speval c.kv c.kv.deg
   let dim := (pts.headD []).length
-  return (List.range (t.knots.length - 1)).map (pieceOf c.kv t pts c.W dim)
+  let n := t.knots.length - 1
+  if !((List.range n).all (pieceCheck c.kv t)) then throw .other
+  return (List.range n).map (pieceOf c.kv t pts c.W dim)
 
 /-- value of a piecewise rational function (right-continuous, last piece closed) -/
 def RF.eval (f : RF) (u : Rat) : Option Vec :=
